@@ -34,6 +34,14 @@ CLAIMED = {
          "Semantic failures, read-only calls, aux preservation and untouched other users are checked on every edge of the bounded Store model against the real store.Dir with byte-level tree snapshots; I/O failures are checked by failing each system call of each operation instance with ENOSPC/EIO/EACCES/EMFILE under strace and comparing the reported result with a byte-level snapshot; read-only operations are straced and must issue no mutating call.",
          "Single fault per operation. Two known findings (failure reported after the commit rename) are listed in known_findings.json. Agent-level read-only guarantee (SASL/LDAP/refused HTTP) is exercised in C04/C06.",
          "4/C15"),
+ "C07": ("TLC enumeration of the Session module (issue / tick / restart / check x candidate kinds); every Check edge concretised against real webSessionFactory objects",
+         "TLC enumerates every (state, instance, candidate kind) of the bounded Session model with the verdict and identity the property demands; each edge is concretised in-package against real factories: every single-bit flip of nonce, body and tag, every truncation length, extensions, every single-character text mutation, nonce/ciphertext splices between tokens, other-instance and pre-restart tokens, back-dated and future-dated tokens (sealed with the factory's own AEAD), malformed plaintexts; 200 000 generated tokens are checked for nonce reuse; one real-time expiry is waited for.",
+         "AES-GCM treated as ideal AEAD. Time is back-dated with the factory's own sealToken rather than waited for (except one 2 s wait). Bounded model: 2 instances, 2 tokens, 4 time steps.",
+         "4/C07"),
+ "C12": ("TLC safety + liveness (LoginConverges) on Agent in all modes, Store edges for the upgradeable flag and written parameter set, gated/ungated upgrade scenarios on the real agent with trace validation and byte-level snapshots",
+         "The `upgradeable` flag and the parameter set of every written record are checked on every Store edge; the Agent model is checked for UpgradeKeepsPasswordAndAdmin, UpgradeOnlyAfterLogin, NoUpgradeWhenOff and the liveness property LoginConverges; on the real agent, idle-convergence scenarios (record rewritten under the default set, same password, admin flag and aux), wrong-password / up-to-date / upgrades-off / remote-mode scenarios (directory byte-identical), the stale-upgrade counterexample and simulated behaviours are executed and their traces validated against TraceAgent.",
+         "Remote mode is exercised with an unreachable or stalled master only (no second agent as master).",
+         "4/C12"),
 }
 
 checks = []
